@@ -341,6 +341,12 @@ func enumerateCNF(tier string, seed int64, certOnly bool, yield func(string, cor
 	if thorough {
 		t2short = -1
 	}
+	if thorough { // four clauses over the short alphabet (length <= 2)
+		short := litSeqs(2, 0, 2)
+		if !sequences(len(short), 4, func(idx []int) bool { return emit("T2x4", pick(short, idx), 2, light[:1]) }) {
+			return
+		}
+	}
 	if !famT2(t2max, t2short, func(f [][]int, n int) bool {
 		if len(f) <= 2 {
 			return emit("T2", f, n, full)
@@ -351,7 +357,7 @@ func enumerateCNF(tier string, seed int64, certOnly bool, yield func(string, cor
 	}
 	d3len := 4
 	if thorough {
-		d3len = 5
+		d3len = 6
 	}
 	d3cfg := []cfg{{"slice", 0, 0, 1}, {"dimacs", 0, 0, 0}}
 	if certOnly {
@@ -374,9 +380,14 @@ func enumerateCNF(tier string, seed int64, certOnly bool, yield func(string, cor
 	}
 	s4max := 3
 	if thorough {
-		s4max = 4
+		s4max = 5
 	}
-	if !famS4(0, s4max, func(f [][]int, n int) bool { return emit("S4", f, n, light[:1]) }) {
+	if !famS4(0, s4max, func(f [][]int, n int) bool {
+		if len(f) == 5 {
+			return emit("S4", f, n, []cfg{{"slice", 0, 0, 0}})
+		}
+		return emit("S4", f, n, light[:1])
+	}) {
 		return
 	}
 	l6k, l6p := 5, 2
